@@ -606,8 +606,31 @@ func (w *World) balances() []sdk.Int {
 	return out
 }
 
+// "@acctN" / "@ACCTN" in a hand-written spec stand for the lower / upper-case bech32 address of account N
+func resolve(s string, accts []*acct) string {
+	var n int
+	if _, err := fmt.Sscanf(s, "@acct%d", &n); err == nil && n < len(accts) {
+		return accts[n].str(false)
+	}
+	if _, err := fmt.Sscanf(s, "@ACCT%d", &n); err == nil && n < len(accts) {
+		return accts[n].str(true)
+	}
+	return s
+}
+
 func runSpec(sp Spec) Result {
 	w := NewWorld(sp.Seed, sp.TSS)
+	steps := make([]Step, len(sp.Steps))
+	copy(steps, sp.Steps)
+	for i := range steps {
+		steps[i].Addr = resolve(steps[i].Addr, w.accts)
+		steps[i].AckRelayer = resolve(steps[i].AckRelayer, w.accts)
+		steps[i].Addrs = append([]string(nil), steps[i].Addrs...)
+		for j := range steps[i].Addrs {
+			steps[i].Addrs[j] = resolve(steps[i].Addrs[j], w.accts)
+		}
+	}
+	sp.Steps = steps
 	res := Result{Spec: sp}
 	for _, a := range w.accts {
 		res.Accts = append(res.Accts, a.addr.String())
